@@ -2,6 +2,7 @@ package props
 
 import (
 	"fmt"
+	"strings"
 	"testing"
 
 	"github.com/AdguardTeam/urlfilter"
@@ -132,6 +133,9 @@ func checkC13(c c13Case, rec *Rec) *Violation {
 				return v
 			}
 			rec.Label("step:" + stp.Kind)
+			if strings.Contains(got, getterMutatedMarker) {
+				return viol(id, "C13:derived-result-call-mutates-result", "step %d request %+v: evaluating the derived results changed the result object: %s", si, q, clipStr(got[strings.Index(got, getterMutatedMarker):]))
+			}
 			if got != want {
 				sig := "C13:history-dependent-answer"
 				if q.Host {
